@@ -12,6 +12,8 @@ mod queries;
 mod validity;
 mod schemas;
 mod printing;
+mod timestamps;
+mod summary;
 
 use std::collections::HashMap;
 
@@ -62,6 +64,9 @@ fn main() {
         "validity" => validity::main(&args),
         "schemas" => schemas::main(&args),
         "printing" => printing::main(&args),
+        "timestamps" => timestamps::main(&args),
+        "summary" => summary::main(&args),
+        "summary-random" => summary::random_main(&args),
         "validity-trace" => validity::trace_main(&args),
         other => {
             eprintln!("unknown command {}", other);
